@@ -43,7 +43,7 @@ COMPONENTS_STUB = ["pristine forked interpreter as the restart reference",
                    "simulated machine for the controller calls",
                    "structural snapshot function"]
 KINDS = ["place", "allocate", "route", "tables", "minimise", "wrapper",
-         "bitfield", "controller"]
+         "bitfield", "controller", "covering"]
 PLACERS = ["sa_c", "sa_python", "hilbert", "rcm", "breadth_first",
            "sequential", "rand"]
 
@@ -325,10 +325,56 @@ class Caller(object):
             return label, self.norm(r)
         if kind == "bitfield":
             return self.call_bitfield(t)
+        if kind == "covering":
+            return self.call_covering(t)
         return self.call_controller(t)
 
     def norm(self, r):
         return canon(r, self.RoutingTree)
+
+    def call_covering(self, t):
+        """Minimisers on small dense tables (few key bits, few routes), where
+        merges - and therefore alias records - are plentiful."""
+        rt = self.rt
+        oc = rig_module("rig.routing_table.ordered_covering")
+        rdr = rig_module("rig.routing_table.remove_default_routes")
+        bits = 3 + t.draw(3)
+        n = 2 + t.draw(min(12, (1 << bits) - 1))
+        keys = list(range(1 << bits))
+        prgen.seeded(t).shuffle(keys)
+        routes = [{rt.Routes(t.draw(6))}, {rt.Routes(6 + t.draw(4))},
+                  {rt.Routes(t.draw(6)), rt.Routes(8)}]
+        table = []
+        for k in keys[:n]:
+            src = {None} if t.draw(2) else {rt.Routes(t.draw(6))}
+            table.append(rt.RoutingTableEntry(routes[t.draw(3)], k,
+                                              (1 << bits) - 1 | 0xffffff00,
+                                              src))
+        target = [None, 1, n - 1, n][t.draw(4)]
+        which = t.draw(4)
+        if which == 0:
+            label = "ordered_covering.minimise[target=%r]" % target
+            r = self.guarded(label, oc.minimise, (table, target), {},
+                             [table, target])
+        elif which == 1:
+            aliases = {}
+            if t.draw(2) and table:
+                e = table[0]
+                aliases[(e.key, e.mask)] = {(e.key, e.mask)}
+            label = "ordered_covering.ordered_covering[target=%r,aliases]" \
+                % target
+            r = self.guarded(label, oc.ordered_covering, (table, target,
+                                                          aliases), {},
+                             [table, target, aliases])
+        elif which == 2:
+            label = "remove_default_routes.minimise[target=%r]" % target
+            r = self.guarded(label, rdr.minimise, (table, target), {},
+                             [table, target])
+        else:
+            label = "minimise_table[target=%r]" % target
+            r = self.guarded(label, rt.minimise_table, (table, target), {},
+                             [table, target])
+        return label, self.norm(r)
 
     def call_bitfield(self, t):
         bfm = rig_module("rig.bitfield")
